@@ -357,3 +357,91 @@ Example stale_set_race_is_undisciplined :
   (exists x, option_map eexp (find (KP 1) (cache s)) = Some (Some x)) /\
   oret (snd (step f7_cfg (fst (step f7_cfg s (OAdv 100001))) (OTake 1 100))) = RRow 1 7 42.
 Proof. vm_compute. repeat split. eexists. reflexivity. Qed.
+
+(* (seeded C06-10 / C06-6, self-test MA) redis.ClusterType: cacheNode.DelCtx sends one DEL per key
+   and registers one retry per failed key.  Pinned variant: the retry closures capture the loop
+   variable (one variable per loop before Go 1.22), so EVERY retry deletes the key the loop
+   ended on - the last one.  After recovery and the first tick nothing is outstanding (no
+   timer, nothing given up, every node up) and every key but the last is still cached: a
+   stale read that is not F7.  The same variant under a context that ends while the first DEL
+   is on the wire ([die_split]): the owed keys are retried as the last key. *)
+Definition del_tasks_lastkey (c : config) (ks : list key) (n : Z) : list task :=
+  if ccluster c && (1 <? Z.of_nat (length ks))
+  then map (fun _ => first_task [last ks (KP 0)] n) ks
+  else [first_task ks n].
+
+Definition del_on_node_lastkey (c : config) (n : Z) (keys : list key) (s : state) : state :=
+  let ks := filter (fun k => node_of c k =? n) keys in
+  match ks with
+  | [] => s
+  | _ =>
+    if node_down s n then
+      mkState (db s) (dbFault s) (cache s) (cfault s)
+              (pending s ++ del_tasks_lastkey c ks n) (lost s) (clock s)
+    else del_on_node c n keys s
+  end.
+
+Definition del_keys_lastkey (c : config) (keys : list key) (s : state) : state :=
+  fold_left (fun s n => del_on_node_lastkey c n keys s) (nodes_of c keys) s.
+
+Definition die_keys_lastkey (c : config) (keys : list key) (n0 : Z) (s : state) : state :=
+  let ks0 := filter (fun k => node_of c k =? n0) keys in
+  owe (map (fun t => mkTask (if ccluster c && (1 <? Z.of_nat (length ks0)) then [last ks0 (KP 0)] else tkeys t)
+                            (tnode t) (trem t) (tdelay t))
+           (snd (die_split c keys n0)))
+      (del_on_node c n0 (fst (die_split c keys n0)) s).
+
+Definition step_lastkey (c : config) (s : state) (o : op) : state * obs :=
+  let put p u v := mkState (db_put p (u, v) (db s)) (dbFault s) (cache s) (cfault s) (pending s) (lost s) (clock s) in
+  match o with
+  | OExec p (Some (u, v)) keys =>
+    if dbFault s || u_taken p u (db s) then (s, mkObs RDbErr 0 0)
+    else (del_keys_lastkey c keys (put p u v), mkObs ROk 0 0)
+  | OExecDie p (Some (u, v)) keys n0 =>
+    if dbFault s || u_taken p u (db s) then (s, mkObs RDbErr 0 0)
+    else (die_keys_lastkey c keys n0 (put p u v), mkObs ROk 0 0)
+  | ODel keys => (del_keys_lastkey c keys s, mkObs ROk 0 0)
+  | _ => step c s o
+  end.
+
+Fixpoint final_lastkey (c : config) (s : state) (ops : list op) : state :=
+  match ops with
+  | [] => s
+  | o :: ops' => final_lastkey c (fst (step_lastkey c s o)) ops'
+  end.
+
+Definition cl_cfg : config := mkCfg (100 * sec) (10 * sec) [] true.
+
+Theorem retry_closure_last_key_refuted :
+  exists c rows ops p t u v,
+    NoDup (map fst rows) /\ all_disciplined c (init rows) ops = true /\
+    let s := final_lastkey c (init rows) ops in
+    cfault s = [] /\ pending s = [] /\ lost s = [] /\ dirty s (KP p) = false /\
+    step_lastkey c s (OTake p t) = (s, mkObs (RRow p u v) 0 0) /\ db_get p (db s) <> Some (u, v) /\
+    (* the model of the real code: every key of the invalidation is gone after the first retry *)
+    cache (final c (init rows) ops) = [].
+Proof.
+  exists cl_cfg, f7_rows,
+    [OTake 1 100; OQri 7 100; OCFault 0 true; OExec 1 (Some (7, 42)) [KP 1; KU 7]; OCFault 0 false; OClean 1],
+    1, 100, 7, 41.
+  split; [repeat constructor; cbn; intuition|].
+  vm_compute. repeat split; discriminate.
+Qed.
+
+Theorem retry_closure_last_key_dying_context_refuted :
+  exists c rows ops u t p v,
+    NoDup (map fst rows) /\ all_disciplined c (init rows) ops = true /\
+    let s := final_lastkey c (init rows) ops in
+    cfault s = [] /\ pending s = [] /\ lost s = [] /\ dirty s (KU u) = false /\ dirty s (KP p) = false /\
+    (* the index entry of the row's OLD index value survived the retry: the row is found under
+       an index value it no longer has *)
+    step_lastkey c s (OQri u t) = (fst (step_lastkey c s (OQri u t)), mkObs (RRow p 9 v) 0 1) /\
+    db_get p (db s) = Some (9, v) /\ u <> 9 /\
+    cache (final c (init rows) ops) = [].
+Proof.
+  exists cl_cfg, f7_rows,
+    [OTake 1 100; OQri 7 100; OExecDie 1 (Some (9, 42)) [KP 1; KU 7; KU 9] 0; OClean 1],
+    7, 100, 1, 42.
+  split; [repeat constructor; cbn; intuition|].
+  vm_compute. repeat split; discriminate.
+Qed.
